@@ -27,6 +27,7 @@ import   "fmt"
 import   "math"
 
 import . "github.com/pbenner/autodiff"
+import   "github.com/pbenner/autodiff/verifhook"
 
 /* -------------------------------------------------------------------------- */
 
@@ -146,6 +147,7 @@ func lineSearch(f objective,
     }
     // decrease alpha_j until constraints are satisfied
     for !constraints(alpha_j) {
+      verifhook.Tick("lineSearch.constraints")
       alpha_j *= 0.5
     }
     yj, gj, err = f(alpha_j)
